@@ -14,7 +14,8 @@ from .c02 import _first_difference
 ID = "C06"
 LEVEL = "exploration"
 RULE = ("by-construction cases: base notebook with 2-7 cells (minor 5 with unique ids, or id-less with pairwise dissimilar sources so the "
-        "aligner is unambiguous); every cell gets an owner L/R/none; the owner applies one of edit-source / edit-outputs / edit-metadata / "
+        "aligner is unambiguous - except that one notebook in eight holds two adjacent copy-pasted cells differing in one line, one twin deleted "
+        "by one side and the other twin changed by the other side); every cell gets an owner L/R/none; the owner applies one of edit-source / edit-outputs / edit-metadata / "
         "set-execution-count / delete / change only the JSON type of a metadata value / edit a line below a form feed, lone CR or unicode line "
         "separator / change the summary line of a stream output full of CR progress bars; each side may insert new cells only into gaps whose neighbouring cells the other side did not touch "
         "and where the other side does not insert; sides may change different notebook-metadata keys. The expected merge E is built in the "
